@@ -638,3 +638,41 @@ def _has_nan(v):
         return any(_has_nan(x) for x in v)
     a = v.array if isinstance(v, Tensor) else np.asarray(v)
     return a.dtype.kind in "fc" and bool(np.any(np.isnan(a)))
+
+
+@case("C04", "getitem.polytope.classes", [], kind="bounded", functions=["geometer.shapes.PolytopeTensor.__getitem__", "geometer.shapes.PolytopeTensor._cast_polytope", "geometer.base.TensorCollection.__iter__"],
+      bound="PolygonCollections of 4 triangles / 3 quadrilaterals / 3 pentagons (2D and 3D), SegmentCollection, shapes (k,) and (2,2): integer index, iteration, slices, index arrays, boolean masks; "
+            "class, shape and the answers of the result against the single polygons")
+def getitem_polytope_classes(ctx):
+    import geometer as g
+    from geometer.shapes import Polygon, PolygonCollection, Triangle, Rectangle, Segment, SegmentCollection
+
+    def poly(n, shift, dim):
+        import math
+        pts = [(math.cos(2 * math.pi * k / n) * 2 + shift[0], math.sin(2 * math.pi * k / n) * 2 + shift[1]) for k in range(n)]
+        if n == 4:
+            pts = [(shift[0], shift[1]), (shift[0] + 3, shift[1]), (shift[0] + 3, shift[1] + 2), (shift[0], shift[1] + 2)]
+        return np.array([list(p) + ([0.5 * shift[0]] if dim == 3 else []) + [1.0] for p in pts])
+
+    for dim in (2, 3):
+        for n, single_cls in ((3, Triangle), (4, Rectangle), (5, Polygon)):
+            shifts = [(0, 0), (7, 0), (0, 7), (7, 7)]
+            pc = PolygonCollection(np.stack([poly(n, s, dim) for s in shifts]))
+            w = dict(dim=dim, vertices=n)
+            e = pc[1]
+            ctx.ensure("integer-index:single-polygon-class", isinstance(e, single_cls) and e.shape == (n, dim + 1) and e == Polygon(poly(n, shifts[1], dim)), witness=dict(w, got=type(e).__name__))
+            its = list(pc)
+            ctx.ensure("iteration:single-polygon-class", len(its) == 4 and all(isinstance(x, single_cls) and x.shape == (n, dim + 1) for x in its), witness=dict(w, got=[type(x).__name__ for x in its]))
+            for name, idx, k in (("slice", slice(0, 3), 3), ("index-array", [0, 2], 2), ("mask", np.array([True, False, True, True]), 3), ("slice-1", slice(1, 2), 1)):
+                sub = pc[idx]
+                ok = isinstance(sub, PolygonCollection) and sub.shape == (k, n, dim + 1)
+                if ok and dim == 2:
+                    q = g.Point(shifts[0][0] + 0.5, shifts[0][1] + 0.5) if n == 4 else g.Point(*shifts[0])
+                    ok = np.array_equal(np.asarray(sub.contains(q)), np.asarray(pc.contains(q))[idx]) and np.allclose(sub.area, np.asarray(pc.area)[idx])
+                ctx.ensure("%s:stays-a-collection" % name, ok, witness=dict(w, got=type(sub).__name__, shape=getattr(sub, "shape", None)))
+            pc2 = PolygonCollection(np.stack([poly(n, s, dim) for s in shifts]).reshape(2, 2, n, dim + 1))
+            row = pc2[1]
+            ctx.ensure("two-collection-axes:row-stays-a-collection", isinstance(row, PolygonCollection) and row.shape == (2, n, dim + 1) and isinstance(pc2[1, 0], single_cls), witness=dict(w, got=type(row).__name__))
+    sc = SegmentCollection(np.array([[[0, 0, 1], [1, 1, 1]], [[1, 0, 1], [0, 1, 1]], [[2, 2, 1], [3, 5, 1]]], dtype=float))
+    ctx.ensure("segments:classes", isinstance(sc[0], Segment) and isinstance(sc[0:2], SegmentCollection) and isinstance(sc[[0, 2]], SegmentCollection) and all(isinstance(x, Segment) for x in sc)
+               and sc[0:2].shape == (2, 2, 3), witness=dict(got=[type(sc[0]).__name__, type(sc[0:2]).__name__]))
